@@ -77,6 +77,7 @@ inductive Out
   | data (d : Option Bytes) (src : Option Nat)
   | pdu (q : Pdu)
   | num (n : Nat)
+  | nums (l : List Nat)
   deriving Repr
 
 abbrev Step := Py (Pair × Py Out)
@@ -297,6 +298,52 @@ def apiResolve (p : Pair) (x : Side) (nm : Bytes) : Step :=
       | some a => done p1 (.num a)
       | none => throw .outOfFuel      -- the real `while name not in self.snl: wait()` would not return
 
+/-! ### several `resolve()` calls at the same time
+
+`k` application threads call `llc.resolve(name_i)` and all of them reach
+`self.resp.wait()` before the run loop sends the next PDU: every call that does not
+find its name in the cache draws a transaction identifier and queues its request
+(`sdAsk`, in the order the threads arrived), then the link runs (all requests go out
+in as few SNL PDUs as the MIU allows, the answers come back), then every call
+returns `self.snl[name_i]`. -/
+
+/-- `ServiceDiscovery.resolve` up to the wait; `none` = no transaction identifier left -/
+def sdAsk (sd : Sd) (nm : Bytes) : Option Sd :=
+  match sd.cache.lookup nm with
+  | some _ => some sd
+  | none =>
+    match sd.tids with
+    | [] => none
+    | tid :: rest => some { sd with tids := rest, sdreq := sd.sdreq ++ [(tid, nm)] }
+
+def sdAskAll : Sd → List Bytes → Option Sd
+  | sd, [] => some sd
+  | sd, nm :: t => (sdAsk sd nm).bind fun sd1 => sdAskAll sd1 t
+
+/-- what a call returns: a call that found its name in the cache (`old`) returned that value at
+once, the others return `self.snl[name]` after the wait (`new`); `none` when the answer is missing -/
+def lookupOne (old new : List (Bytes × Nat)) (nm : Bytes) : Option Nat :=
+  match old.lookup nm with
+  | some a => some a
+  | none => new.lookup nm
+
+def lookupAll (old new : List (Bytes × Nat)) : List Bytes → Option (List Nat)
+  | [] => some []
+  | nm :: t => (lookupOne old new nm).bind fun a => (lookupAll old new t).map fun l => a :: l
+
+/-- `k` concurrent `llc.resolve(name)` calls (results in the order of `nms`); a call whose
+name is cached returns without waiting, so the link only runs when a request was queued -/
+def apiResolveMany (p : Pair) (x : Side) (nms : List Bytes) : Step :=
+  let c := p.get x
+  match sdAskAll c.sd nms with
+  | none => throw .outOfFuel
+  | some sd1 =>
+    (if sd1.sdreq.length = c.sd.sdreq.length then pure p
+     else pump pumpRounds (p.set x { c with sd := sd1 })) >>= fun p1 =>
+    match lookupAll c.sd.cache (p1.get x).sd.cache nms with
+    | some l => done p1 (.nums l)
+    | none => throw .outOfFuel        -- a `while name not in self.snl: wait()` would not return
+
 /-- `socket.close()` of the three classes; an established data link connection
 sends DISC and waits for the answer -/
 def sockClose (p : Pair) (x : Side) (id : Nat) : Py Pair :=
@@ -344,17 +391,22 @@ inductive Op
   | resolve (x : Side) (nm : Bytes)
   | close (x : Side) (id : Nat)
   | xfer (x : Side)
+  /-- several `resolve()` calls waiting at the same time -/
+  | resolveMany (x : Side) (nms : List Bytes)
+  /-- a raw access point sends a service name lookup PDU with arbitrary content -/
+  | sendsnl (x : Side) (id : Nat) (sdreq : List (Nat × Bytes)) (sdres : List (Nat × Nat))
   deriving Repr
 
 def Op.side : Op → Side
   | .socket x _ | .bind x _ _ | .listen x _ _ | .connect x _ _ | .accept x _ | .sendto x _ _ _
-  | .sendpdu x _ _ _ _ | .recvfrom x _ | .resolve x _ | .close x _ | .xfer x => x
+  | .sendpdu x _ _ _ _ | .recvfrom x _ | .resolve x _ | .close x _ | .xfer x
+  | .resolveMany x _ | .sendsnl x _ _ _ => x
 
 /-- socket argument of an operation -/
 def Op.sock? : Op → Option Nat
-  | .socket .. | .resolve .. | .xfer .. => none
+  | .socket .. | .resolve .. | .xfer .. | .resolveMany .. => none
   | .bind _ id _ | .listen _ id _ | .connect _ id _ | .accept _ id | .sendto _ id _ _
-  | .sendpdu _ id _ _ _ | .recvfrom _ id | .close _ id => some id
+  | .sendpdu _ id _ _ _ | .recvfrom _ id | .close _ id | .sendsnl _ id _ _ => some id
 
 /-- the socket argument is a socket created earlier at that controller -/
 def Op.wf (p : Pair) (op : Op) : Bool :=
@@ -374,6 +426,8 @@ def applyOp (p : Pair) : Op → Step
   | .resolve x nm => apiResolve p x nm
   | .close x id => apiClose p x id
   | .xfer x => apiXfer p x
+  | .resolveMany x nms => apiResolveMany p x nms
+  | .sendsnl x id rq rs => apiSendPdu p x id (.snl rq rs)
 
 def apply (p : Pair) (op : Op) : Step :=
   if op.wf p then applyOp p op else throw .outOfFuel
